@@ -236,6 +236,11 @@ pub fn configs(tier: Tier) -> Vec<InCfg> {
                     // chunks must still be read
                     alphabet.push(T::PubSplit { qos: 1, id: 0, len: 40 });
                 }
+                if ver == Ver::V5 && n == 1 && sz == 65535 {
+                    // the peer completes its QoS 2 exchanges (PUBREL of the oldest id that has its PUBREC): the PUBCOMP
+                    // gives the quota slot back (mutation-sweep survivor: the PUBREL path forgot to)
+                    alphabet.push(T::PubRel(0));
+                }
                 v.push(InCfg {
                     ep,
                     connect_props: vec![],
